@@ -1,7 +1,7 @@
 (* Model/Range.v — executable model of dreye/api/convex.py:_range_of_solutions (enumeration of
    basic solutions) over Q, and certificate checkers for the exact per-source extents (C06). *)
 From Coq Require Import QArith Qabs Qminmax List Bool Arith Lia.
-From DV Require Import Base.QVec Run.Verdict Model.Linear Cert.Hull.
+From DV Require Import Base.QVec Run.Verdict Model.Linear Cert.Hull Cert.Duality Model.Lsq.
 Import ListNotations.
 Open Scope Q_scope.
 
@@ -120,6 +120,7 @@ Record case := {
   c_expect : nat;                         (* 0: in gamut (ranges expected); 1: certified outside, error='raise';
                                              2: certified outside, error='ignore' (best fit as both ends) *)
   c_sep : vec; c_mu : Q;                  (* separation certificate for c_expect = 1, 2 *)
+  c_x0 : vec; c_s : Q;                    (* c_expect = 2: least-squares certificate point and s with s^2 <= optimum *)
   c_tol : Q; c_tols : Q }.
 
 Definition A' (c : case) : mat := transA (c_K c) (c_A c) (c_n c).
@@ -142,6 +143,13 @@ Definition spaced_ok (c : case) : bool :=
 Definition outside_ok (c : case) : bool :=
   qlt 0 (c_mu c) && check_sep (A' c) (vzero (length (c_A c))) (somesv (c_lb c)) (somesv (c_ub c)) (c_n c) (b' c) (c_sep c) (c_mu c).
 
+(* the best fit returned for an out-of-gamut target, judged by the C04 certificate (unit weights) *)
+Definition fit_case (c : case) (x : vec) : Lsq.case :=
+  {| Lsq.c_A := c_A c; Lsq.c_n := c_n c; Lsq.c_lb := somesv (c_lb c); Lsq.c_ub := somesv (c_ub c);
+     Lsq.c_K := c_K c; Lsq.c_base := c_base c; Lsq.c_w := repeat 1 (length (c_A c)); Lsq.c_b := c_b c;
+     Lsq.c_X := x; Lsq.c_Bpred := relcap (c_K c) (c_A c) (c_base c) x;
+     Lsq.c_x0 := c_x0 c; Lsq.c_s := c_s c; Lsq.c_tolc := 2 # 100;
+     Lsq.c_tolb := map (fun lu => (fst lu - snd lu) * (1 # 100)) (combine (c_ub c) (c_lb c)); Lsq.c_tolp := 1 # 1000000000 |}.
 Definition verdict (c : case) : bool :=
   match c_expect c with
   | O =>
@@ -157,8 +165,7 @@ Definition verdict (c : case) : bool :=
   | 1%nat => outside_ok c && match c_impl c with Err ValueError => true | _ => false end
   | _ => outside_ok c &&
          match c_impl c with
-         | Ok (mins, maxs) => vclose (c_tol c) (c_tol c) mins maxs &&
-                              in_boxob (c_tols c) mins (somesv (c_lb c)) (somesv (c_ub c))
+         | Ok (mins, maxs) => vclose (c_tol c) (c_tol c) mins maxs && Lsq.verdict (fit_case c mins)
          | Err _ => false
          end
   end.
